@@ -476,7 +476,7 @@ func maxInt(a, b int) int {
 // empty set and nil; every binary operation on every ordered pair, every observer, deletion of
 // every second element, Copy independence. Gen maps an index to an element, in Less order.
 func CheckSetsLong[S any, E comparable](c *vrep.Ctx, api *SetAPI[S, E], gen func(i int) E) {
-	maxN := c.ParamInt("maxn", c.Pick(130, 400))
+	maxN := c.ParamInt("maxn", c.Pick(280, 600))
 	c.R.Rule = fmt.Sprintf("large %ss: for EVERY n in 1..%d: A = {0..n-1} (inserted ascending one by one / descending one by one / in one call), B = {n/2..n/2+n-1}, C = even numbers below 2n, empty, nil; Union, Intersect, Difference, Unique, Disjoint, Equal on every ordered pair, Len/Empty/Contains(every candidate)/Sorted/Elements on every set, operands unchanged by every operation, Delete of every second element, Copy independent of its source; oracle: map[int]bool model; non-trivial = comparisons made", api.Name, maxN)
 	c.Bound("max_elements", maxN)
 	type named struct {
